@@ -242,7 +242,58 @@ func init() {
 				r.Dist["separator-and-cut-iterations"]++
 			}
 		}
+		// the body of a counter loop gives the counter's NAME to something else (key / value of a nested range loop, a
+		// ctx tag, a counter tag): every iteration of the outer loop starts from its own counter value again
+		for _, inner := range []string{`{% for i, v := range lst %}{%= v %}{% endfor %}`, `{% for k, i := range lst %}{%= i %}{% endfor %}`, `{% ctx i = 9 %}`, `{% ctx i = "x" %}`,
+			`{% counter i = 7 %}`, `{% include rebind %}`, ``} {
+			for _, hdr := range []string{`{% for i := 0; i < 3; i++ %}`, `{% for i := 5; i > 2; i-- %}`} {
+				src := hdr + `[{%= i %}:` + inner + `:{%= i %}{% if i == 1 %}one{% endif %}{% if i == 4 %}four{% endif %}]{% endfor %}|{%= i %}`
+				c := &RCase{Tpls: []TplDef{{Key: "rebind", Src: `{% for i, v := range lst %}{%= i %}{% endfor %}`, KeepFmt: true}, {Key: "main", Src: src, KeepFmt: true}}, Meta: map[string]any{"counter-name-rebound-by": inner}}
+				c.Ops = []SOp{{Kind: "strs", Name: "lst", Val: []string{"a", "b", "c"}}, {Kind: "render", Key: "main"}, {Kind: "render", Key: "main"}}
+				cases = append(cases, c)
+				r.Dist["counter-name-rebound"]++
+			}
+		}
+		// a reset context whose variable slots held counters before: the loop variables bound into those slots are
+		// compared in the FIRST iteration
+		for _, loop := range []string{`{% for i := 0; i < 3; i++ %}{% if i == 0 %}first{% endif %}{%= i %},{% endfor %}`, `{% for j := 7; j > 0; j-- %}{% break if j == 7 %}{%= j %},{% endfor %}`,
+			`{% for k, v := range lst %}{% if v == "a" %}A{% endif %}{% continue if k == 0 %}{%= k %}{% endfor %}`} {
+			c := &RCase{CheckShape: true, Tpls: []TplDef{{Key: "cntrs", Src: `{% counter c1 = 5 %}{% counter c2 = 6 %}{% counter c3 = 7 %}{% counter c4 = 8 %}{%= c1 %}{%= c4 %}`, KeepFmt: true}, {Key: "main", Src: loop, KeepFmt: true}},
+				Meta: map[string]any{"loop-after-counters-on-reset-context": loop}}
+			c.Ops = []SOp{{Kind: "render", Key: "cntrs"}, {Kind: "reset"}, {Kind: "strs", Name: "lst", Val: []string{"a", "b"}}, {Kind: "render", Key: "main"}, {Kind: "reset"}, {Kind: "render", Key: "main"}}
+			cases = append(cases, c)
+			r.Dist["loop-after-counters"]++
+		}
 		runSessions(r, cases, outputDiffers)
+		// names of loop variables are names (a relation on the real engine alone — the parser decides what is bound):
+		// a key or value whose name merely STARTS with an underscore, or contains "range" / "for", is bound like any other
+		for _, names := range [][2]string{{"_k", "v"}, {"__idx", "_v"}, {"k_", "v_"}, {"forK", "rangeV"}, {"k9", "v9"}} {
+			for _, body := range []string{`{%= K %}={%= V %},`, `{% if K == 1 %}one{% endif %}{%= V %}`} {
+				mk := func(k, v string) string {
+					b := strings.ReplaceAll(strings.ReplaceAll(body, "K", k), "V", v)
+					return `{% for ` + k + `, ` + v + ` := range lst sep ; %}` + b + `{% endfor %}|{% for ` + k + ` := 0; ` + k + ` < 2; ` + k + `++ %}{%= ` + k + ` %}{% endfor %}`
+				}
+				var outs [2]rendered
+				bad := ""
+				for x, src := range []string{mk(names[0], names[1]), mk("kk", "vv")} {
+					key, err, pan := regTpl(src, true)
+					if err != nil || pan != "" {
+						bad = fmt.Sprintf("Parse rejects %s: %v %s", src, err, pan)
+						break
+					}
+					ctx := dyntpl.NewCtx()
+					ctx.Set("lst", &[]string{"p", "q", "r"}, inspector.StringsInspector{})
+					outs[x] = renderSafe(key, ctx)
+				}
+				sig := "loop-variable-names " + names[0] + "," + names[1] + " body=" + body
+				r.Count(sig, true)
+				r.Dist["loop-variable-names"]++
+				if bad != "" || outs[0].ErrStr() != outs[1].ErrStr() || !bytes.Equal(outs[0].Out, outs[1].Out) {
+					r.Violate(sig, "a loop whose variables are named "+names[0]+" / "+names[1]+" renders differently from the same loop with plain names",
+						map[string]any{"source": mk(names[0], names[1]), "plain_source": mk("kk", "vv"), "output": string(outs[0].Out), "plain_output": string(outs[1].Out), "error": outs[0].ErrStr(), "problem": bad})
+				}
+			}
+		}
 	}
 	props["C14"] = func(r *Run) {
 		r.Rule = "random loop nests to depth 3 mixing counter and range loops with break / continue / lazybreak, depth N from 1 to nesting+1, conditional forms, sibling loops; Go output vs Lean interpreter model"
@@ -474,6 +525,38 @@ func init() {
 					r.Violate(sig+" got="+string(got.Out), "after a (re-)registration an include tag does not render the template now registered under its first registered name",
 						map[string]any{"host": host, "history": hist, "inlined": inl, "output": string(got.Out), "inlined_output": string(want.Out), "error": got.ErrStr(), "panic": got.Panic})
 					break
+				}
+			}
+		}
+		// template names are separated by the ASCII blank only: a name that contains another kind of white space
+		// (NO-BREAK SPACE, IDEOGRAPHIC SPACE, NEL) is ONE name, also when the part before it is a registered name itself
+		dyntpl.VerifResetRegistry()
+		for _, sp := range []string{"\u00a0", "\u3000", "\u0085", "\t"} {
+			long := "c16menu" + sp + "main"
+			t1, e1, p1 := parseSafe([]byte("short"), true)
+			t2, e2, p2 := parseSafe([]byte("long{%= si %}"), true)
+			if e1 != nil || e2 != nil || p1 != "" || p2 != "" {
+				r.Internal("C16 names: bodies do not parse")
+				break
+			}
+			dyntpl.RegisterTplKey("c16menu", t1)
+			dyntpl.RegisterTplKey("main", t1)
+			dyntpl.RegisterTplKey(long, t2)
+			for _, host := range []string{"<{% include " + long + " %}>", "<{% . c16nope " + long + " c16menu %}>", "{% for i := 0; i < 2; i++ %}<{% include " + long + " %}>{% endfor %}"} {
+				hk, err, pan := regTpl(host, true)
+				want := strings.ReplaceAll(strings.ReplaceAll(strings.ReplaceAll(host, "{% include "+long+" %}", "long1"), "{% . c16nope "+long+" c16menu %}", "long1"), "{% for i := 0; i < 2; i++ %}<long1>{% endfor %}", "<long1><long1>")
+				var got rendered
+				if err == nil && pan == "" {
+					ctx := dyntpl.NewCtx()
+					ctx.SetStatic("si", 1)
+					got = renderSafe(hk, ctx)
+				}
+				sig := fmt.Sprintf("include-name-with-space %q host=%s", sp, host)
+				r.Count(sig, true)
+				r.Dist["include-name-with-space"]++
+				if tab := sp == "\t"; !tab && (err != nil || pan != "" || got.Err != nil || string(got.Out) != want) {
+					r.Violate(sig, "an include of a template whose name contains a non-ASCII space does not render that template",
+						map[string]any{"host": host, "registered": []string{"c16menu -> short", "main -> short", long + " -> long{%= si %}"}, "output": string(got.Out), "expected": want, "error": got.ErrStr(), "parse_error": fmt.Sprint(err)})
 				}
 			}
 		}
